@@ -4,6 +4,7 @@ import (
 	"bytes"
 	"encoding/hex"
 	"fmt"
+	"sort"
 	"strings"
 	"time"
 
@@ -32,6 +33,7 @@ type Explorer struct {
 	WithTimes bool
 	// OnStep, if set, is called after every checked transition (C14's schedule oracle).
 	OnStep func(in *inst, e Event, out Out, hist []Event)
+	BeforeStep func(in *inst, e Event)
 	// OnNewState, if set, is called once for every newly discovered state with the live instance
 	// (which is discarded afterwards, so the callback may keep driving it).
 	OnNewState func(in *inst, hist []Event)
@@ -50,6 +52,23 @@ type inst struct {
 	m     *Model
 	store map[string][]byte
 	key   string
+	// LastBroadcast: virtual time at which each SignedObservation gossip message (keyed by its bytes)
+	// was last seen on the outbound channel - the harness's own record, independent of the node's fields.
+	LastBroadcast map[string]time.Time
+	PrevBroadcast map[string]time.Time // value before the step just taken
+}
+
+func (in *inst) auxKey() string {
+	if len(in.LastBroadcast) == 0 {
+		return ""
+	}
+	var ks []string
+	now := vtime.Now()
+	for k, t := range in.LastBroadcast {
+		ks = append(ks, fmt.Sprintf("%x@%d", crypto.Keccak256([]byte(k))[:3], int64(now.Sub(t)/time.Second)))
+	}
+	sort.Strings(ks)
+	return "|bc:" + strings.Join(ks, ",")
 }
 
 func (x *Explorer) fresh() *inst {
@@ -65,7 +84,7 @@ func (x *Explorer) fresh() *inst {
 		x.keysFor = x.C
 	}
 	n := x.W.NewNode(x.C.OwnKey, 50)
-	in := &inst{n: n, m: NewModel(x.C), store: map[string][]byte{}}
+	in := &inst{n: n, m: NewModel(x.C), store: map[string][]byte{}, LastBroadcast: map[string]time.Time{}}
 	in.key = in.m.Key() + "#" + ImplKey(n, in.store, x.WithTimes)
 	return in
 }
@@ -86,10 +105,36 @@ func (x *Explorer) step(in *inst, e Event, hist []Event, check bool) {
 	}
 	pre := in.store
 	exp := in.m.Apply(e, input, pre)
-	out := in.n.Step(input)
+	if check && x.BeforeStep != nil {
+		x.BeforeStep(in, e)
+	}
+	var out Out
+	switch {
+	case e.Kind == "budget":
+		in.n.P.VerifSetRetryCount(hex.EncodeToString(x.C.Msgs[e.M].OwnDigest()), uint(e.DtSec))
+	case e.Kind == "tick" && e.FullQ:
+		out = in.n.StepFullQueue(input)
+	default:
+		out = in.n.Step(input)
+	}
 	post := in.n.Store()
 	in.store = post
+	prevBroadcast := in.LastBroadcast
+	if len(out.ObsRaw) > 0 && e.Kind == "tick" { // retransmissions by the cleanup service only
+		nb := map[string]time.Time{}
+		for k, v := range in.LastBroadcast {
+			nb[k] = v
+		}
+		for _, raw := range out.ObsRaw {
+			nb[string(raw)] = vtime.Now()
+		}
+		in.LastBroadcast = nb
+	}
+	in.PrevBroadcast = prevBroadcast
 	in.key = in.m.Key() + "#" + ImplKey(in.n, post, x.WithTimes)
+	if x.WithTimes {
+		in.key += in.auxKey()
+	}
 	if !check {
 		return
 	}
@@ -420,7 +465,12 @@ func (x *Explorer) StepUnchecked(in *inst, e Event) Out {
 		vtime.Advance(time.Duration(e.DtSec) * time.Second)
 	}
 	in.m.Apply(e, input, in.store)
-	out := in.n.Step(input)
+	var out Out
+	if e.Kind == "budget" {
+		in.n.P.VerifSetRetryCount(hex.EncodeToString(x.C.Msgs[e.M].OwnDigest()), uint(e.DtSec))
+	} else {
+		out = in.n.Step(input)
+	}
 	in.store = in.n.Store()
 	return out
 }
